@@ -23,7 +23,7 @@ from pathlib import Path
 
 VERIF = Path(__file__).resolve().parent.parent
 REPO = Path(os.environ.get("VERIF_REPO", "/repo"))
-EVIDENCE = VERIF / "evidence"
+EVIDENCE = Path(os.environ.get("VERIF_EVIDENCE_DIR") or VERIF / "evidence")   # (tools/matrix.sh keeps runs against seeded changes out of evidence/)
 REPLAYS = VERIF / "replays"
 KNOWN = VERIF / "known_findings.txt"
 GUARD = "EXPERIMAESTRO_VERIF"
